@@ -239,5 +239,27 @@ pub fn run_probes(mbl: u8, rep: &mut Report) {
         }
         rep.nontrivial(&"probe-P4");
     }
+    // cross-check (not an oracle): the repository's off-circuit encoder agrees with the documented
+    // layout the reference uses, on every boundary class
+    fn enc_check<K: Emu>(rep: &mut Report)
+    where
+        MEP: FieldEmulationParams<F, K>,
+    {
+        use midnight_circuits::types::{AssignedField, Instantiable};
+        for (label, v) in super::cat_field::fe_classes::<K>() {
+            let k = super::ffield::to_k::<K>(&v);
+            let theirs = <AssignedField<F, K, MEP> as Instantiable<F>>::as_public_input(&k);
+            if theirs == super::ffield::encode_fe::<K>(&v) {
+                rep.count("selftest.offcircuit_encoder_matches_documented_layout");
+            } else {
+                rep.inconclusive(&format!("{}: AssignedField::as_public_input differs from the documented limb layout on class {label} (see C08)", K::TAG));
+            }
+        }
+    }
+    enc_check::<midnight_curves::k256::Fq>(rep);
+    enc_check::<midnight_curves::k256::Fp>(rep);
+    enc_check::<Bls>(rep);
+    enc_check::<midnight_curves::curve25519::Fp>(rep);
+    enc_check::<midnight_curves::curve25519::Scalar>(rep);
     let _ = F::ZERO;
 }
